@@ -105,6 +105,15 @@ Theorem C07_names_val_names : forall rows aliases m,
 Proof. exact names_val_names. Qed.
 Print Assumptions C07_names_val_names.
 
+(* ... exactly the input (upper-cased) when the labels are given in ascending bit order: an identity *)
+Theorem C07_names_val_names_exact : forall rows aliases m,
+  wf_file rows aliases = true -> load true rows aliases = Some m ->
+  forall g ls bs, known rows aliases g = true -> distinct_labels ls = true ->
+  bits_of (defs rows aliases g) (map upper ls) = Some bs -> StronglySorted Z.lt bs ->
+  match flagval m g ls with RVal v => flagname m g v | r => r end = RNames (map upper ls).
+Proof. exact names_val_names_exact. Qed.
+Print Assumptions C07_names_val_names_exact.
+
 (* case of the arguments is irrelevant (any table) *)
 Theorem C07_case_insensitive_args : forall (m : table) g g', upper g = upper g' ->
   (forall ls ls', map upper ls = map upper ls' -> flagval m g ls = flagval m g' ls') /\
@@ -171,9 +180,6 @@ Proof. exact load_upper_file. Qed.
 Print Assumptions C07_upper_file_loads_alike.
 
 (* non-vacuity: a mixed-case file with bit 63 and an alias satisfies the hypotheses, and the answers are the expected ones *)
-Definition ex_rows : list row :=
-  [([84; 97; 114; 103; 101; 116], 63, [72; 105]); ([84; 65; 82; 71; 69; 84], 0, [108; 111]); ([79; 116; 104; 101; 114], 5, [120])].   (* Target 63 Hi; TARGET 0 lo; Other 5 x *)
-Definition ex_aliases : list arow := [([116; 97; 114; 103; 101; 116], [80; 114; 105; 109])].                                  (* target Prim *)
 Example C07_example :
   wf_file ex_rows ex_aliases = true /\
   match load true ex_rows ex_aliases with
@@ -188,17 +194,18 @@ Proof. vm_compute. repeat split; reflexivity. Qed.
 
 (* the defect this check found in the unchanged tree, as a statement about the model of the unfixed loader
    (load false = names stored as spelled in the file): on the same well-formed file the lookup that S fixes
-   to 2^63 raises KeyError, and so does the second half of value -> names -> value *)
+   to 2^63 raises KeyError, and value -> names -> value loses bit 63 *)
 Example C07_unnormalised_load_violates :
   wf_file ex_rows ex_aliases = true /\
   spec_flagval ex_rows ex_aliases [116; 97; 114; 103; 101; 116] [[104; 105]] = RVal (2 ^ 63) /\
+  spec_vnv ex_rows ex_aliases [84; 97; 114; 103; 101; 116] (2 ^ 63) = RVal (2 ^ 63) /\
   match load false ex_rows ex_aliases with
   | Some m => False
   | None => True      (* the alias row names `target`, the dictionary only has `Target` and `TARGET` *)
   end /\
   match load false ex_rows [] with
   | Some m => flagval m [116; 97; 114; 103; 101; 116] [[104; 105]] = RKeyError /\
-              model_call m (KVNV [84; 97; 114; 103; 101; 116] (2 ^ 63)) = RKeyError
+              model_call m (KVNV [84; 97; 114; 103; 101; 116] (2 ^ 63)) = RVal 0   (* bit 63 is lost *)
   | None => False
   end.
 Proof. vm_compute. repeat split; reflexivity. Qed.
